@@ -45,6 +45,16 @@ CHECKS = {
              'harness/c05.py; determinism of numpy/sklearn across processes; the step of the Loop model is not derived from the code (its '
              'determinism is what the bit-identical resumes sample).',
         tech='Lean 4 proof (loop-slice laws + decide over generated persistence tables) + file-vs-memory diff at every write + resume differential', ref='DESIGN.md §3 C05'),
+    'C06': dict(
+        text='Lean 4 theorem on an inode-level system-call model: for every trace respecting the atomic-writer discipline, every crash '
+             'prefix leaves the checkpoint path existing with exactly the content it had when last completed/moved into place; exact '
+             'classifier for arbitrary traces. Real checkpointed runs are traced with strace, every system call on the checkpoint and its '
+             'temporary sibling is a crash point decided by the model on the observed trace, and real SIGKILL experiments (strace fault '
+             'injection at the k-th call) open, compare and resume the file left behind.',
+        note='Trusted: Lean kernel + standard axioms; harness/c06.py (strace parsing and abstraction to the Sys alphabet), strace completeness '
+             'for the traced set; POSIX rename atomicity; completed writes survive a process kill (no power-loss durability claimed); '
+             'HDF5 does not write through writable shared mmaps.',
+        tech='Lean 4 proof (invariant over system-call traces) + strace trace classification + SIGKILL fault injection', ref='DESIGN.md §3 C06'),
     'C09': dict(
         text='Lean 4 `decide` theorems over persistence tables regenerated from write/read/update of every bound class (all classes x '
              'all guard valuations): read assigns every attribute the behavioural methods use, from the key and under the guard write '
@@ -82,7 +92,7 @@ CHECKS = {
         tech='Lean 4 proof + AST translator + scripted-RNG exact differential', ref='DESIGN.md §3 C14'),
 }
 
-READY = ['C01', 'C02', 'C03', 'C05', 'C09', 'C10', 'C12', 'C13', 'C14', 'C15', 'C16']
+READY = ['C01', 'C02', 'C03', 'C05', 'C06', 'C09', 'C10', 'C12', 'C13', 'C14', 'C15', 'C16']
 
 PENDING_REASON = 'check under construction in this build round; not yet registered (see DESIGN.md §6 build order)'
 
@@ -111,7 +121,7 @@ def main():
                 'property_id': pid, 'quick_cmd': './bin/check %s quick' % pid,
                 'thorough_cmd': './bin/check %s thorough' % pid, 'evidence_file': 'evidence/%s.json' % pid,
                 'replay_cmd_template': './bin/check %s --replay {path}' % pid, 'engine': 'lean4-proof+correspondence',
-                'level_claimed': {'category': 'proof', 'text': c['text'], 'design_ref': c['ref']},
+                'level_claimed': {'category': c.get('cat', 'proof'), 'text': c['text'], 'design_ref': c['ref']},
                 'level_note': c['note'], 'technique': c['tech']})
         else:
             m['not_applicable'].append({'property_id': pid, 'reason': PENDING_REASON})
